@@ -197,11 +197,11 @@ func (e *Engine) exec(st *State, th *Thread, fr *Frame, in ssa.Instruction) {
 
 // srcText: a position-independent description of an instruction for finding keys.
 func srcText(prog *ssa.Program, in ssa.Instruction) string {
-	s := in.String()
+	// cheap description (finding keys use the source line at the instruction's position)
 	if v, ok := in.(ssa.Value); ok {
-		s = v.Name() + " = " + s
+		return fmt.Sprintf("%s (%T)", v.Name(), in)
 	}
-	return s
+	return fmt.Sprintf("%T", in)
 }
 
 func (e *Engine) indexVal(st *State, av Val, iv Val, it types.Type, pos token.Pos) Val {
